@@ -200,6 +200,22 @@ Proof. destruct c as [l|l|l|l|[|v vals] l|]; intros H; try reflexivity. discrimi
 Lemma card_strict e c : strict_enum c = true -> card_ok e c = true.
 Proof. destruct c as [l|l|l|l|[|v vals] l|]; intros H; try reflexivity. discriminate. Qed.
 
+(* the premise on declared value lists (enum_decl_nodup, Proofs/CsvReadProofs.v), spelled out *)
+Lemma enum_decl_nodup_iff c : enum_decl_nodup c = true <-> (forall vals l, c = ColEnum vals l -> NoDup vals).
+Proof.
+  destruct c as [l|l|l|l|vals l|]; cbn [enum_decl_nodup]; try (split; [intros _ vals0 l0 H; discriminate H | reflexivity]).
+  rewrite nodup_values_spec. split.
+  - intros H vals0 l0 E. inversion E; subst. exact H.
+  - intros H. apply (H vals l eq_refl).
+Qed.
+
+(* what was read back can be declared again: the re-derived table lists no value twice *)
+Lemma readback_decl_nodup e c : enum_decl_nodup c = true -> enum_decl_nodup (readback_col e c) = true.
+Proof.
+  destruct c as [l|l|l|l|[|v vals] l|]; intros H; try exact H; try reflexivity.
+  cbn [readback_col enum_decl_nodup]. apply nodup_values_spec. apply first_occ_NoDup. constructor.
+Qed.
+
 Section RoundTrip2.
 Variable format_float : N -> bytes.
 Variable parse_float : bytes -> option N.
@@ -214,10 +230,11 @@ Lemma column_roundtrip2 e c ev :
   col_in_int64 c = true ->
   enum_side_ok e c = true ->
   card_ok e c = true ->
+  enum_decl_nodup c = true ->
   (forall vals l, c = ColEnum vals l -> ev = Some vals) ->
   column_to_data e (dtype_of (type_name c)) ev (col_strings c) = Ok (readback_col e c).
 Proof.
-  intros Hint Henum Hcard Hev.
+  intros Hint Henum Hcard Hndv Hev.
   destruct (strict_enum c) eqn:S.
   - rewrite (readback_strict e c S).
     apply (column_roundtrip format_float parse_float float_roundtrip); assumption.
@@ -226,6 +243,7 @@ Proof.
     rewrite (Hev [] l eq_refl). cbn [card_ok] in Hcard. apply Nat.leb_le in Hcard.
     unfold CsvRead.column_to_data. rewrite andb_false_r. cbn iota.
     change (Nat.ltb enum_max_cardinality (length (@nil bytes))) with false. cbn iota.
+    cbn [nodup_values negb].
     change (Nat.ltb 0 (length (@nil bytes))) with false. cbn [col_strings readback_col].
     unfold first_occ in *.
     destruct (enum_fill_nonstrict e (map opt_str l) [] [] Hcard) as (rs & H1 & H2).
@@ -235,7 +253,7 @@ Proof.
 Qed.
 
 Definition col_ok2 (e : bool) (nc : bytes * column) : bool :=
-  col_in_int64 (snd nc) && enum_side_ok e (snd nc) && card_ok e (snd nc).
+  col_in_int64 (snd nc) && enum_side_ok e (snd nc) && card_ok e (snd nc) && enum_decl_nodup (snd nc).
 
 Lemma convert_cols_rt2 conf e all :
   cf_types conf = ty_entries all -> cf_empty_null conf = e -> NoDup (map fst all) ->
@@ -249,7 +267,7 @@ Proof.
   intros Hty He Hnd. induction rest as [|[name col] rest IH]; intros acc Hsub Hnd2 Hok.
   - cbn. rewrite app_nil_r. reflexivity.
   - cbn [map fst snd convert_cols]. cbn [forallb] in Hok. apply andb_true_iff in Hok as [Hc Hrest].
-    unfold col_ok2 in Hc. cbn [snd] in Hc. apply andb_true_iff in Hc as [Hc Hcard].
+    unfold col_ok2 in Hc. cbn [snd] in Hc. apply andb_true_iff in Hc as [Hc Hndv]. apply andb_true_iff in Hc as [Hc Hcard].
     apply andb_true_iff in Hc as [Hint Henum].
     assert (assoc name (cf_types conf) = Some (type_name col)) as Ht.
     { rewrite Hty. apply assoc_in.
@@ -257,7 +275,7 @@ Proof.
       - unfold ty_entries. apply in_map_iff. exists (name, col). split; [reflexivity|]. apply Hsub. left. reflexivity. }
     rewrite Ht, He.
     cbn [map fst] in Hnd2. apply NoDup_cons_iff in Hnd2 as [Hnot Hnd2'].
-    rewrite (column_roundtrip2 e col); [| exact Hint | exact Henum | exact Hcard |].
+    rewrite (column_roundtrip2 e col); [| exact Hint | exact Henum | exact Hcard | exact Hndv |].
     + cbn [obind].
       assert ((if match dtype_of (type_name col) with DEnum => true | _ => false end
                then assoc_del name (ev_entries ((name, col) :: rest))
@@ -270,6 +288,50 @@ Proof.
       rewrite Hev. rewrite IH; [| intros nc Hin; apply Hsub; right; exact Hin | exact Hnd2' | exact Hrest].
       rewrite <- app_assoc. reflexivity.
     + intros vals l ->. unfold ev_entries. cbn [flat_map fst snd app assoc]. rewrite bytes_eqb_refl. reflexivity.
+Qed.
+
+(* ... and when some declared value list names a value twice, the conversion stops with an error at the first
+   such column (the columns before it are converted as above) *)
+Lemma convert_cols_dup conf e all :
+  cf_types conf = ty_entries all -> cf_empty_null conf = e -> NoDup (map fst all) ->
+  forall rest acc,
+  (forall nc, In nc rest -> In nc all) -> NoDup (map fst rest) ->
+  forallb (fun nc => col_in_int64 (snd nc) && enum_side_ok e (snd nc) && card_ok e (snd nc)) rest = true ->
+  forallb (fun nc => enum_decl_nodup (snd nc)) rest = false ->
+  convert_cols atoi parse_float atob conf (map fst rest) (map (fun nc => col_strings (snd nc)) rest)
+               (ev_entries rest) acc
+  = Fail.
+Proof.
+  intros Hty He Hnd. induction rest as [|[name col] rest IH]; intros acc Hsub Hnd2 Hok Hdv.
+  - discriminate Hdv.
+  - cbn [map fst snd convert_cols]. cbn [forallb] in Hok. apply andb_true_iff in Hok as [Hc Hrest].
+    cbn [snd] in Hc. apply andb_true_iff in Hc as [Hc Hcard]. apply andb_true_iff in Hc as [Hint Henum].
+    assert (assoc name (cf_types conf) = Some (type_name col)) as Ht.
+    { rewrite Hty. apply assoc_in.
+      - unfold ty_entries. rewrite map_map. cbn [fst]. exact Hnd.
+      - unfold ty_entries. apply in_map_iff. exists (name, col). split; [reflexivity|]. apply Hsub. left. reflexivity. }
+    rewrite Ht, He.
+    cbn [map fst] in Hnd2. apply NoDup_cons_iff in Hnd2 as [Hnot Hnd2'].
+    cbn [forallb snd] in Hdv. destruct (enum_decl_nodup col) eqn:D.
+    + cbn [andb] in Hdv.
+      rewrite (column_roundtrip2 e col); [| exact Hint | exact Henum | exact Hcard | exact D |].
+      * cbn [obind].
+        assert ((if match dtype_of (type_name col) with DEnum => true | _ => false end
+                 then assoc_del name (ev_entries ((name, col) :: rest))
+                 else ev_entries ((name, col) :: rest)) = ev_entries rest) as Hev.
+        { destruct col; try reflexivity.
+          change (dtype_of (type_name (ColEnum vals l))) with DEnum. cbn iota.
+          unfold ev_entries at 1. cbn [flat_map fst snd app]. fold (ev_entries rest).
+          unfold assoc_del. cbn [filter fst]. rewrite bytes_eqb_refl. cbn [negb].
+          apply assoc_del_notin. intros Hin. apply Hnot. apply ev_entries_keys. exact Hin. }
+        rewrite Hev. apply IH; [intros nc Hin; apply Hsub; right; exact Hin | exact Hnd2' | exact Hrest | exact Hdv].
+      * intros vals l ->. unfold ev_entries. cbn [flat_map fst snd app assoc]. rewrite bytes_eqb_refl. reflexivity.
+    + destruct col as [l|l|l|l|vals l|]; try discriminate D. cbn [enum_decl_nodup] in D.
+      change (dtype_of (type_name (ColEnum vals l))) with DEnum.
+      assert (assoc name (ev_entries ((name, ColEnum vals l) :: rest)) = Some vals) as ->
+        by (unfold ev_entries; cbn [flat_map fst snd app assoc]; rewrite bytes_eqb_refl; reflexivity).
+      rewrite (column_to_data_enum_duplicate_rejected parse_float); [reflexivity|].
+      intro Hn. apply nodup_values_spec in Hn. congruence.
 Qed.
 
 (* the premises of the round trip that do not concern CR *)
@@ -301,18 +363,28 @@ Definition written_records (n : nat) (hdr : bool) (wf : frame) : list (list byte
   let body := map (row_at (map (fun nc : bytes * column => col_strings (snd nc)) wf)) (seq 0 n) in
   if hdr then map fst wf :: body else body.
 
-(* the core: what is needed about CR is only that the scanner returns the records as written, i.e. (rec_ok) that
-   no record's LAST field ends in CR *)
-Theorem roundtrip_core f tc wf doc e :
+(* the checks of ReadCSV after the columns were converted *)
+Definition finish_read (names : list bytes) (r : frame * list (bytes * list bytes)) : outcome frame :=
+  let '(fr, enum_left) := r in
+  if negb (is_nilb enum_left) then Fail
+  else if has_dup names then Fail
+  else if negb (forallb check_name names) then Fail
+  else Ok fr.
+
+(* reading what ToCSV wrote comes down to converting the written cell strings column by column: what is needed
+   about CR is only that the scanner returns the records as written, i.e. (rec_ok) that no record's LAST field
+   ends in CR *)
+Lemma read_written_reduces f tc wf doc e :
   iter_cols f tc = Ok wf ->
   to_csv format_float f tc = Ok doc ->
   rt_premises_sharp e (frame_len f) wf = true ->
   forallb rec_ok (written_records (frame_len f) (tc_header tc) wf) = true ->
-  forallb (fun nc => card_ok e (snd nc)) wf = true ->
   read_csv_spec atoi parse_float atob (read_conf_for e (tc_header tc) wf) doc
-  = Ok (map (fun nc => (fst nc, readback_col e (snd nc))) wf).
+  = do r <- convert_cols atoi parse_float atob (read_conf_for e (tc_header tc) wf) (map fst wf)
+              (map (fun nc : bytes * column => col_strings (snd nc)) wf) (ev_entries wf) [];
+    finish_read (map fst wf) r.
 Proof.
-  intros Hiter Hcsv Hprem Hrecs Hcard.
+  intros Hiter Hcsv Hprem Hrecs.
   unfold rt_premises_sharp in Hprem. apply andb_true_iff in Hprem as [Hprem Hdup].
   apply andb_true_iff in Hprem as [Hne Hcols]. rewrite forallb_forall in Hcols.
   assert (wf <> []) as Hwf by (destruct wf; [discriminate | discriminate]).
@@ -348,23 +420,65 @@ Proof.
   assert (map (firstn (0 + n)) strs = strs) as Hall.
   { rewrite <- (map_id strs) at 2. apply map_ext_in. intros s Hs. rewrite Forall_forall in Hlen.
     rewrite <- (Hlen s Hs). apply firstn_all. }
-  rewrite Hall.
-  assert (has_dup names = false) as Hdf.
-  { destruct (has_dup names); [discriminate Hdup | reflexivity]. }
-  assert (NoDup names) as Hnd by (apply has_dup_nodup; exact Hdf).
-  unfold names, strs.
-  fold (ev_entries wf).
+  rewrite Hall. reflexivity.
+Qed.
+
+(* the premises of roundtrip_core about the written frame, taken apart *)
+Lemma sharp_names e n wf :
+  rt_premises_sharp e n wf = true ->
+  NoDup (map fst wf) /\ has_dup (map fst wf) = false /\ forallb check_name (map fst wf) = true /\
+  forallb (fun nc => col_in_int64 (snd nc) && enum_side_ok e (snd nc)) wf = true.
+Proof.
+  intros Hprem. unfold rt_premises_sharp in Hprem. apply andb_true_iff in Hprem as [Hprem Hdup].
+  apply andb_true_iff in Hprem as [Hne Hcols]. rewrite forallb_forall in Hcols.
+  assert (has_dup (map fst wf) = false) as Hdf.
+  { destruct (has_dup (map fst wf)); [discriminate Hdup | reflexivity]. }
+  split; [apply has_dup_nodup; exact Hdf|]. split; [exact Hdf|]. split.
+  - apply forallb_forall. intros s Hs. apply in_map_iff in Hs as (nc & <- & Hnc).
+    apply (sharp_parts e n nc (Hcols nc Hnc)).
+  - apply forallb_forall. intros nc Hnc.
+    destruct (sharp_parts e n nc (Hcols nc Hnc)) as (_ & P4 & P5 & _). rewrite P4, P5. reflexivity.
+Qed.
+
+(* the core.  The declared value lists are duplicate-free (enum_decl_nodup, Proofs/CsvReadProofs.v: the reader's
+   enum factory rejects any other declaration, roundtrip_core_duplicate below) *)
+Theorem roundtrip_core f tc wf doc e :
+  iter_cols f tc = Ok wf ->
+  to_csv format_float f tc = Ok doc ->
+  rt_premises_sharp e (frame_len f) wf = true ->
+  forallb rec_ok (written_records (frame_len f) (tc_header tc) wf) = true ->
+  forallb (fun nc => card_ok e (snd nc)) wf = true ->
+  forallb (fun nc => enum_decl_nodup (snd nc)) wf = true ->
+  read_csv_spec atoi parse_float atob (read_conf_for e (tc_header tc) wf) doc
+  = Ok (map (fun nc => (fst nc, readback_col e (snd nc))) wf).
+Proof.
+  intros Hiter Hcsv Hprem Hrecs Hcard Hndv.
+  rewrite (read_written_reduces f tc wf doc e Hiter Hcsv Hprem Hrecs).
+  destruct (sharp_names e _ wf Hprem) as (Hnd & Hdf & Hcn & Hok).
   rewrite (convert_cols_rt2 _ e wf); try reflexivity; try assumption.
-  - cbn [obind app is_nilb negb]. fold names.
-    rewrite Hdf. cbn [negb].
-    assert (forallb check_name names = true) as Hcn.
-    { apply forallb_forall. intros s Hs. apply in_map_iff in Hs as (nc & <- & Hnc).
-      apply (sharp_parts e n nc (Hcols nc Hnc)). }
-    rewrite Hcn. reflexivity.
+  - cbn [obind app finish_read is_nilb negb]. rewrite Hdf, Hcn. reflexivity.
   - auto.
   - apply forallb_forall. intros nc Hnc. unfold col_ok2.
-    rewrite forallb_forall in Hcard. rewrite (Hcard nc Hnc), andb_true_r.
-    destruct (sharp_parts e n nc (Hcols nc Hnc)) as (_ & P4 & P5 & _). rewrite P4, P5. reflexivity.
+    rewrite forallb_forall in Hcard, Hndv, Hok. rewrite (Hok nc Hnc), (Hcard nc Hnc), (Hndv nc Hnc). reflexivity.
+Qed.
+
+(* with every other premise in place, a declared value list that names a value twice makes ReadCSV fail *)
+Theorem roundtrip_core_duplicate f tc wf doc e :
+  iter_cols f tc = Ok wf ->
+  to_csv format_float f tc = Ok doc ->
+  rt_premises_sharp e (frame_len f) wf = true ->
+  forallb rec_ok (written_records (frame_len f) (tc_header tc) wf) = true ->
+  forallb (fun nc => card_ok e (snd nc)) wf = true ->
+  forallb (fun nc => enum_decl_nodup (snd nc)) wf = false ->
+  read_csv_spec atoi parse_float atob (read_conf_for e (tc_header tc) wf) doc = Fail.
+Proof.
+  intros Hiter Hcsv Hprem Hrecs Hcard Hndv.
+  rewrite (read_written_reduces f tc wf doc e Hiter Hcsv Hprem Hrecs).
+  destruct (sharp_names e _ wf Hprem) as (Hnd & Hdf & Hcn & Hok).
+  rewrite (convert_cols_dup _ e wf); try reflexivity; try assumption.
+  - auto.
+  - apply forallb_forall. intros nc Hnc.
+    rewrite forallb_forall in Hcard, Hok. rewrite (Hok nc Hnc), (Hcard nc Hnc). reflexivity.
 Qed.
 
 (* no CR anywhere: every record is fine *)
@@ -397,16 +511,31 @@ Proof.
   apply rec_ok_no_cr; assumption.
 Qed.
 
-(* the round trip with strict and non-strict enum columns *)
+(* the round trip with strict and non-strict enum columns; the declared value lists are duplicate-free *)
 Theorem roundtrip2 f tc wf doc e :
   iter_cols f tc = Ok wf ->
   to_csv format_float f tc = Ok doc ->
   rt_premises e (frame_len f) wf = true ->
   forallb (fun nc => card_ok e (snd nc)) wf = true ->
+  forallb (fun nc => enum_decl_nodup (snd nc)) wf = true ->
   read_csv_spec atoi parse_float atob (read_conf_for e (tc_header tc) wf) doc
   = Ok (map (fun nc => (fst nc, readback_col e (snd nc))) wf).
 Proof.
-  intros Hiter Hcsv Hprem Hcard. apply roundtrip_core with (f := f); try assumption.
+  intros Hiter Hcsv Hprem Hcard Hndv. apply roundtrip_core with (f := f); try assumption.
+  - apply rt_premises_weaken. exact Hprem.
+  - apply (written_records_no_cr e). exact Hprem.
+Qed.
+
+(* ... and the premise on the declared value lists is needed: without it ReadCSV reports an error *)
+Theorem roundtrip2_duplicate f tc wf doc e :
+  iter_cols f tc = Ok wf ->
+  to_csv format_float f tc = Ok doc ->
+  rt_premises e (frame_len f) wf = true ->
+  forallb (fun nc => card_ok e (snd nc)) wf = true ->
+  forallb (fun nc => enum_decl_nodup (snd nc)) wf = false ->
+  read_csv_spec atoi parse_float atob (read_conf_for e (tc_header tc) wf) doc = Fail.
+Proof.
+  intros Hiter Hcsv Hprem Hcard Hndv. apply roundtrip_core_duplicate with (f := f); try assumption.
   - apply rt_premises_weaken. exact Hprem.
   - apply (written_records_no_cr e). exact Hprem.
 Qed.
@@ -477,10 +606,11 @@ Theorem roundtrip_sharp f tc wf doc e :
   rt_premises_sharp e (frame_len f) wf = true ->
   last_col_ok (tc_header tc) wf = true ->
   forallb (fun nc => card_ok e (snd nc)) wf = true ->
+  forallb (fun nc => enum_decl_nodup (snd nc)) wf = true ->
   read_csv_spec atoi parse_float atob (read_conf_for e (tc_header tc) wf) doc
   = Ok (map (fun nc => (fst nc, readback_col e (snd nc))) wf).
 Proof.
-  intros Hiter Hcsv Hprem Hlast Hcard. apply roundtrip_core with (f := f); try assumption.
+  intros Hiter Hcsv Hprem Hlast Hcard Hndv. apply roundtrip_core with (f := f); try assumption.
   apply (written_records_last_ok e); assumption.
 Qed.
 
@@ -491,11 +621,12 @@ Theorem roundtrip_fragmented f tc wf doc e (chunks : list bytes) (t : rterm) :
   to_csv format_float f tc = Ok doc ->
   rt_premises e (frame_len f) wf = true ->
   forallb (fun nc => card_ok e (snd nc)) wf = true ->
+  forallb (fun nc => enum_decl_nodup (snd nc)) wf = true ->
   Forall (fun c : bytes => c <> []) chunks -> concat chunks = doc -> (t = TEofSep \/ t = TEofWith) ->
   read_csv_buf atoi parse_float atob (read_conf_for e (tc_header tc) wf) chunks t
   = Ok (map (fun nc => (fst nc, readback_col e (snd nc))) wf).
 Proof.
-  intros Hiter Hcsv Hprem Hcard Hne Hcat Ht.
+  intros Hiter Hcsv Hprem Hcard Hndv Hne Hcat Ht.
   rewrite (read_csv_buf_spec _ _ _ _ chunks t Hne Ht), Hcat.
   apply roundtrip2 with (f := f); assumption.
 Qed.
@@ -543,7 +674,15 @@ Proof.
     by (intros x; apply col_strings_forget). reflexivity.
 Qed.
 
-(* the written frame read back by a reader that declares the types only *)
+(* nothing is declared for a forgotten value table, so there is nothing that could be listed twice *)
+Lemma forget_frame_decl_nodup wf : forallb (fun nc => enum_decl_nodup (snd nc)) (forget_frame wf) = true.
+Proof.
+  apply forallb_forall. intros nc Hnc. unfold forget_frame in Hnc. apply in_map_iff in Hnc as (nc0 & <- & _).
+  cbn [snd]. destruct (snd nc0); reflexivity.
+Qed.
+
+(* the written frame read back by a reader that declares the types only (no premise on the written columns'
+   value tables: the reader never sees them) *)
 Theorem roundtrip_undeclared f tc wf doc e (chunks : list bytes) (t : rterm) :
   iter_cols f tc = Ok wf ->
   to_csv format_float f tc = Ok doc ->
@@ -561,6 +700,7 @@ Proof.
   - apply iter_cols_forget. exact Hiter.
   - rewrite (to_csv_forget f tc wf Hiter). exact Hcsv.
   - rewrite Hl. exact Hprem.
+  - apply forget_frame_decl_nodup.
 Qed.
 
 End RoundTrip2.
@@ -585,15 +725,19 @@ Theorem nonstrict_enum_names
   (forall n vals l, In (n, ColEnum vals l) wf -> vals = [] ->
      (length (nodup (list_eq_dec N.eq_dec) (map (fun o => match o with Some s => s | None => [] end) l))
       <= enum_max_cardinality)%nat) ->
+  (forall n vals l, In (n, ColEnum vals l) wf -> NoDup vals) ->
   exists g, read_csv_spec atoi parse_float atob (read_conf_for e (tc_header tc) wf) doc = Ok g /\
             map fst g = map fst wf.
 Proof.
-  intros Hiter Hcsv Hprem Hcard.
+  intros Hiter Hcsv Hprem Hcard Hndv.
   exists (map (fun nc => (fst nc, readback_col e (snd nc))) wf). split.
   - apply (roundtrip2 format_float parse_float float_roundtrip f); try assumption.
-    apply forallb_forall. intros [n c] Hnc. cbn [snd].
-    destruct c as [l|l|l|l|[|v vals] l|]; try reflexivity. cbn [card_ok]. apply Nat.leb_le.
-    eapply Nat.le_trans; [apply first_occ_le_nodup|]. apply (Hcard n [] l Hnc eq_refl).
+    + apply forallb_forall. intros [n c] Hnc. cbn [snd].
+      destruct c as [l|l|l|l|[|v vals] l|]; try reflexivity. cbn [card_ok]. apply Nat.leb_le.
+      eapply Nat.le_trans; [apply first_occ_le_nodup|]. apply (Hcard n [] l Hnc eq_refl).
+    + apply forallb_forall. intros [n c] Hnc. cbn [snd].
+      destruct c as [l|l|l|l|vals l|]; try reflexivity. cbn [enum_decl_nodup].
+      apply nodup_values_spec. apply (Hndv n vals l Hnc).
   - rewrite map_map. reflexivity.
 Qed.
 
@@ -616,7 +760,7 @@ From QF Require Import Model.Json Model.Observe.
 (* Model.Frame is imported last: from here on [frame], [col_len], [frame_len] mean the physical frame; the typed
    table of Model/CsvSpec.v is written CsvSpec.frame, CsvSpec.col_len, CsvWrite.frame_len *)
 From QF Require Import Model.Frame Model.Filter Model.Ops Model.TableSpec.
-From QF Require Import Proofs.ObserveProofs.
+From QF Require Import Proofs.EnumProofs Proofs.ObserveProofs.
 Local Open Scope nat_scope.
 
 (* the typed columns of Model/CsvSpec.v (what ReadCSV returns, what the typed views return) as a logical
@@ -832,10 +976,13 @@ Proof.
 Qed.
 
 (* the premises on the physical frame, as a computable check: the frame as observed through its views has at
-   least one column, valid distinct names without CR, no CR in strings, null enum cells readable *)
+   least one column, valid distinct names without CR, no CR in strings, null enum cells readable, enum value
+   tables without a repeated value (the reader declares them: ReadCSV rejects a declaration that lists a value
+   twice; every column the enum factory built has such a table, Proofs/EnumProofs.v enum_new_ok_nodup, and
+   phys_premises_intro below derives this part from enum_tables_nodup) *)
 Definition phys_premises (e : bool) (f : frame) : bool :=
   match observe_frame f with
-  | Ok o => rt_premises e (length (ix f)) o
+  | Ok o => rt_premises e (length (ix f)) o && forallb (fun nc => enum_decl_nodup (snd nc)) o
   | _ => false
   end.
 
@@ -862,7 +1009,7 @@ Theorem roundtrip_physical (f : frame) (t : table) tc doc e (chunks : list bytes
 Proof.
   intros Ht Hnd Hprem Hord Hcsv Hne Hcat Hterm.
   destruct (observe_table f t Ht Hnd) as (o & Hobs & Htab & Hlens & Henum).
-  unfold phys_premises in Hprem. rewrite Hobs in Hprem.
+  unfold phys_premises in Hprem. rewrite Hobs in Hprem. apply andb_true_iff in Hprem as [Hprem Hndo].
   unfold frame_to_csv in Hcsv. rewrite Hobs in Hcsv. cbn [obind] in Hcsv.
   destruct (iter_cols o tc) as [wf| |] eqn:Hit;
     try (unfold to_csv, to_csv_records in Hcsv; rewrite Hit in Hcsv; discriminate).
@@ -877,6 +1024,7 @@ Proof.
   - rewrite Hn. exact Hpw.
   - apply forallb_forall. intros nc Hnc. apply card_ok_observed.
     rewrite Forall_forall in Henum. apply Henum. apply Hsub. exact Hnc.
+  - apply forallb_forall. intros nc Hnc. rewrite forallb_forall in Hndo. apply Hndo. apply Hsub. exact Hnc.
 Qed.
 
 (* without Columns(order): the table read back is the logical table of the frame, normalised *)
@@ -1083,30 +1231,36 @@ Qed.
 Lemma Forall_map_inv {A B} (P : B -> Prop) (g : A -> B) l : Forall P (map g l) -> Forall (fun x => P (g x)) l.
 Proof. intros H. apply Forall_forall. intros x Hx. rewrite Forall_forall in H. apply H. apply in_map. exact Hx. Qed.
 
+(* the two copies of NewFactory's duplicate check (Model/CsvRead.v for the reader, Model/Ops.v for qframe.New) *)
+Lemma nodup_values_bytes (l : list bytes) : nodup_values l = nodup_bytes l.
+Proof. induction l as [|x l IH]; [reflexivity|]. cbn [nodup_values nodup_bytes]. rewrite IH. reflexivity. Qed.
+
 Lemma observed_col_prem e c index xs :
   omap (cell_at c) index = Ok xs -> Forall cell_rt_ok xs -> enum_null_ok e index c ->
+  enum_table_nodup c = true ->
   exists col, typed_column (col_type c) (enum_values c) xs = Ok col
     /\ col_no_cr col = true /\ col_in_int64 col = true /\ enum_side_ok e col = true
-    /\ CsvSpec.col_len col = length xs.
+    /\ CsvSpec.col_len col = length xs /\ enum_decl_nodup col = true.
 Proof.
-  intros H Hok Hen. pose proof (col_cells_shape c index xs H) as S.
+  intros H Hok Hen Hndt. pose proof (col_cells_shape c index xs H) as S.
   destruct c as [d|d|d|d|d vs st]; cbn [col_type] in *; destruct S as (zs & ->); unfold typed_column.
   - rewrite (omap_prj_inj CInt) by reflexivity. eexists. split; [reflexivity|].
-    cbn [col_no_cr col_in_int64 enum_side_ok CsvSpec.col_len]. rewrite map_length. repeat split.
+    cbn [col_no_cr col_in_int64 enum_side_ok CsvSpec.col_len enum_decl_nodup]. rewrite map_length. repeat split.
     apply forallb_forall. intros z Hz. apply Forall_map_inv in Hok. rewrite Forall_forall in Hok. exact (Hok z Hz).
   - rewrite (omap_prj_inj CFloat) by reflexivity. eexists. split; [reflexivity|].
-    cbn [col_no_cr col_in_int64 enum_side_ok CsvSpec.col_len]. rewrite map_length. auto.
+    cbn [col_no_cr col_in_int64 enum_side_ok CsvSpec.col_len enum_decl_nodup]. rewrite map_length. auto 6.
   - rewrite (omap_prj_inj CBool) by reflexivity. eexists. split; [reflexivity|].
-    cbn [col_no_cr col_in_int64 enum_side_ok CsvSpec.col_len]. rewrite map_length. auto.
+    cbn [col_no_cr col_in_int64 enum_side_ok CsvSpec.col_len enum_decl_nodup]. rewrite map_length. auto 6.
   - rewrite (omap_prj_inj CStr) by reflexivity. eexists. split; [reflexivity|].
-    cbn [col_no_cr col_in_int64 enum_side_ok CsvSpec.col_len]. rewrite map_length. repeat split.
+    cbn [col_no_cr col_in_int64 enum_side_ok CsvSpec.col_len enum_decl_nodup]. rewrite map_length. repeat split.
     apply forallb_forall. intros o Ho. apply Forall_map_inv in Hok. rewrite Forall_forall in Hok.
     specialize (Hok o Ho). destruct o; [exact Hok | reflexivity].
   - rewrite (omap_prj_inj CEnum) by reflexivity. eexists. split; [reflexivity|].
-    cbn [col_no_cr col_in_int64 enum_side_ok CsvSpec.col_len enum_values]. rewrite map_length.
+    cbn [col_no_cr col_in_int64 enum_side_ok CsvSpec.col_len enum_values enum_decl_nodup]. rewrite map_length.
     cbn [enum_null_ok] in Hen. destruct Hen as [Hlen Hnull].
+    cbn [enum_table_nodup] in Hndt. rewrite nodup_values_bytes.
     pose proof (enum_cells_in d vs st index zs H) as Hin. rewrite Forall_forall in Hin.
-    split; [|split; [reflexivity|split; [|reflexivity]]].
+    split; [|split; [reflexivity|split; [|split; [reflexivity | exact Hndt]]]].
     + apply forallb_forall. intros o Ho. apply Forall_map_inv in Hok. rewrite Forall_forall in Hok.
       specialize (Hok o Ho). destruct o; [exact Hok | reflexivity].
     + apply andb_true_iff. split; [|apply Nat.leb_le; exact Hlen].
@@ -1135,47 +1289,54 @@ Lemma observe_cols_prem e f : forall cs rows,
   (forall nc, In nc cs -> lookup_col f (fst nc) = Some (snd nc)) ->
   rows_of cs (ix f) = Ok rows ->
   Forall (Forall cell_rt_ok) rows ->
-  Forall (fun nc => CsvRead.check_name (fst nc) = true /\ no_cr (fst nc) = true /\ enum_null_ok e (ix f) (snd nc)) cs ->
+  Forall (fun nc => CsvRead.check_name (fst nc) = true /\ no_cr (fst nc) = true /\ enum_null_ok e (ix f) (snd nc)
+                    /\ enum_table_nodup (snd nc) = true) cs ->
   exists obs, omap (observe_one f) cs = Ok obs /\ map fst obs = map fst cs /\
     forallb (fun nc => CsvRead.check_name (fst nc) && no_cr (fst nc) && col_no_cr (snd nc)
                        && col_in_int64 (snd nc) && enum_side_ok e (snd nc)
-                       && Nat.eqb (CsvSpec.col_len (snd nc)) (length (ix f))) obs = true.
+                       && Nat.eqb (CsvSpec.col_len (snd nc)) (length (ix f))) obs = true /\
+    forallb (fun nc => enum_decl_nodup (snd nc)) obs = true.
 Proof.
   induction cs as [|[n c] cs IH]; intros rows Hlk Hrows Hok Hcs.
   - exists []. repeat split.
   - apply rows_of_cons in Hrows as (xs & rows' & Hxs & Hrows' & ->).
     assert (Hxl : length xs = length (ix f)) by (apply (omap_len _ _ _ Hxs)).
     apply Forall_zipc in Hok as [Hx Hr]; [|rewrite Hxl; symmetry; apply (rows_of_len _ _ _ Hrows')].
-    inversion Hcs as [|? ? (N1 & N2 & N3) Hcs']; subst. cbn [fst snd] in *.
-    destruct (IH rows') as (obs & Hobs & Hnames & Hall); try assumption;
+    inversion Hcs as [|? ? (N1 & N2 & N3 & N4) Hcs']; subst. cbn [fst snd] in *.
+    destruct (IH rows') as (obs & Hobs & Hnames & Hall & Hnda); try assumption;
       [intros nc Hin; apply Hlk; right; exact Hin|].
-    destruct (observed_col_prem e c (ix f) xs Hxs Hx N3) as (col & Hcol & P1 & P2 & P3 & P4).
+    destruct (observed_col_prem e c (ix f) xs Hxs Hx N3 N4) as (col & Hcol & P1 & P2 & P3 & P4 & P5).
     assert (Hone : observe_one f (n, c) = Ok (n, col)).
     { pose proof (Hlk (n, c) (or_introl eq_refl)) as Hl. cbn [fst snd] in Hl.
       unfold observe_one, observe_named, get_view. cbn [fst snd].
       rewrite Hl. rewrite ctype_eqb_refl. cbn [obind].
       rewrite (view_items_slice (mkView c (ix f)) xs Hxs). cbn [obind v_col]. rewrite Hcol. reflexivity. }
-    exists ((n, col) :: obs). split; [|split].
+    exists ((n, col) :: obs). split; [|split; [|split]].
     + cbn [omap]. rewrite Hone. cbn [obind]. rewrite Hobs. reflexivity.
     + cbn [map fst]. f_equal. exact Hnames.
     + cbn [forallb fst snd]. rewrite Hall, N1, N2, P1, P2, P3, P4, Hxl, Nat.eqb_refl. reflexivity.
+    + cbn [forallb snd]. rewrite P5, Hnda. reflexivity.
 Qed.
 
-(* phys_premises from conditions on the logical table and the enum columns *)
+(* phys_premises from conditions on the logical table and the enum columns; enum_tables_nodup (Proofs/EnumProofs.v:
+   no value table lists a value twice) is what every column built by the enum factory has *)
 Theorem phys_premises_intro e (f : frame) (t : table) :
   abs f = Ok t -> NoDup (col_names f) -> cols f <> [] ->
   Forall (fun n => CsvRead.check_name n = true /\ no_cr n = true) (col_names f) ->
   Forall (Forall cell_rt_ok) (trows t) ->
   Forall (fun nc => enum_null_ok e (ix f) (snd nc)) (cols f) ->
+  enum_tables_nodup f = true ->
   phys_premises e f = true.
 Proof.
-  intros Ht Hnd Hne Hnames Hcells Henum. destruct (abs_ok f t Ht) as (R & _ & _).
-  destruct (observe_cols_prem e f (cols f) (trows t)) as (obs & Hobs & Hn & Hall); try assumption.
+  intros Ht Hnd Hne Hnames Hcells Henum Hndt. destruct (abs_ok f t Ht) as (R & _ & _).
+  destruct (observe_cols_prem e f (cols f) (trows t)) as (obs & Hobs & Hn & Hall & Hnda); try assumption.
   - intros nc Hin. apply lookup_col_nodup; assumption.
   - apply Forall_forall. intros nc Hnc. rewrite Forall_forall in Hnames, Henum.
     destruct (Hnames (fst nc)) as [H1 H2]; [unfold col_names; apply in_map; exact Hnc|].
-    repeat split; try assumption. apply Henum. exact Hnc.
-  - unfold phys_premises, observe_frame. fold (observe_one f). rewrite Hobs. unfold rt_premises. rewrite Hall.
+    repeat split; try assumption; [apply Henum; exact Hnc|].
+    unfold enum_tables_nodup in Hndt. rewrite forallb_forall in Hndt. apply Hndt. exact Hnc.
+  - unfold phys_premises, observe_frame. fold (observe_one f). rewrite Hobs, Hnda, andb_true_r.
+    unfold rt_premises. rewrite Hall.
     assert (has_dup (map fst obs) = false) as ->.
     { rewrite Hn. fold (col_names f). destruct (has_dup (col_names f)) eqn:D; [|reflexivity]. exfalso.
       clear - D Hnd. induction (col_names f) as [|x l IH]; [discriminate|]. cbn [has_dup] in D.
